@@ -34,7 +34,7 @@ NOW_DTN_MS = (1767225600 - 946684800) * 1000
 def _combo_cases():
     out = []
     for prev, hops, age, unknown, crc, numbering, ctime, lifetime in itertools.product(
-            ('none', 'other', 'self'), (0, 1, 2), (False, True), (0, 1, 2), (0, 1, 2), ('dense', 'sparse', 'permuted'),
+            ('none', 'other', 'self', 'two'), (0, 1, 2), (0, 1, 2), (0, 1, 2), (0, 1, 2), ('dense', 'sparse', 'permuted'),
             ('nonzero', 'zero'), (1000, 0)):
         if ctime == 'zero' and not age:
             continue  # a bundle without a clock must carry an age block
@@ -53,7 +53,7 @@ def cases(tier, seed):
             out.append(dict(id='rand-%d' % idx, kind='rand', seed=seed * 65537 + idx, count=120))
     else:
         rng = random.Random(seed)
-        picks = sorted(rng.sample(range(len(combos)), 600))
+        picks = sorted(rng.sample(range(len(combos)), 900))
         for idx in range(0, len(picks), 30):
             out.append(dict(id='combo-%d' % idx, kind='combo-list', picks=picks[idx:idx + 30], seed=seed))
         for idx in range(16):
@@ -63,18 +63,17 @@ def cases(tier, seed):
 
 def build(combo, rng):
     ''' Received bundle (dict form) for one combination. '''
-    nums = {'dense': [2, 3, 4, 5, 6, 7, 8], 'sparse': [7, 24, 255, 256, 70000, 2 ** 33, 99],
-            'permuted': [9, 3, 8, 2, 6, 4, 5]}[combo['numbering']]
+    nums = {'dense': [2, 3, 4, 5, 6, 7, 8, 9], 'sparse': [7, 24, 255, 256, 70000, 2 ** 33, 99, 23],
+            'permuted': [9, 3, 8, 2, 6, 4, 5, 7]}[combo['numbering']]
     nums = list(nums)
     blocks = []
     crc = combo['crc']
-    if combo['prev'] != 'none':
-        eid = 'dtn://prev-hop/' if combo['prev'] == 'other' else NODE
+    for eid in {'none': [], 'other': ['dtn://prev-hop/'], 'self': [NODE], 'two': ['dtn://prev-hop/', 'ipn:5.0']}[combo['prev']]:
         blocks.append(dict(type=6, num=nums.pop(0), flags=0, crc_type=crc, data=cw.enc(bpv7.eid_to_item(eid)), crc=None))
     for idx in range(combo['hops']):
         blocks.append(dict(type=10, num=nums.pop(0), flags=rng.choice([0, 1]), crc_type=crc,
                            data=cw.enc([rng.choice([5, 30, 255]), rng.choice([0, 1, 23, 24]) + idx]), crc=None))
-    if combo['age']:
+    for _idx in range(int(combo['age'])):
         blocks.append(dict(type=7, num=nums.pop(0), flags=0, crc_type=crc, data=cw.enc(rng.choice([0, 5, 1000, 2 ** 33])), crc=None))
     for idx in range(combo['unknown']):
         blocks.append(dict(type=rng.choice([192, 200, 65535]), num=nums.pop(0), flags=rng.choice([0, 1, 0x10]), crc_type=crc,
@@ -85,7 +84,7 @@ def build(combo, rng):
     ctime = 0 if combo['ctime'] == 'zero' else NOW_DTN_MS - rng.choice([0, 1, 999, 86400000])
     dest = rng.choice(['dtn://next-a/svc', 'dtn://next-b/svc'])
     flags = rng.choice([0, bpv7.FLAG_NO_FRAGMENT, bpv7.FLAG_REQ_FORWARDING, bpv7.FLAG_USER_APP_ACK | bpv7.FLAG_REQ_STATUS_TIME])
-    pri = dict(version=7, flags=flags, crc_type=rng.choice([0, crc]), dest=dest, src=rng.choice(['dtn://src/app', 'ipn:7.3']),
+    pri = dict(version=7, flags=flags, crc_type=rng.choice([0, crc]), dest=dest, src=rng.choice(['dtn://src/app', 'ipn:7.3', 'dtn:none']),
                report_to=rng.choice(['dtn:none', 'dtn://rep/r']), create_time=ctime, seqno=rng.choice([0, 1, 2 ** 32]),
                lifetime=combo['lifetime'], frag_offset=None, total_adu_len=None, crc=None)
     return dict(primary=pri, blocks=blocks, dwell_ms=rng.choice([0, 0, 1, 1500, 86400000]))
@@ -188,8 +187,8 @@ def check_forward(bundle, obs, shared=None):
             want_age = now_dtn_ms + dwell_ms - rpri['create_time']
             if age != want_age:
                 problems.append('Bundle Age is %r, time since creation is %d ms' % (age, want_age))
-        elif rages and age != rages[0] + dwell_ms:
-            problems.append('Bundle Age went from %r to %r after %d ms at the node' % (rages[0], age, dwell_ms))
+        elif rages and age not in [rage + dwell_ms for rage in rages]:
+            problems.append('Bundle Age went from %r to %r after %d ms at the node' % (rages, age, dwell_ms))
     elif rpri['create_time'] == 0:
         detail['age_dropped_without_clock'] = True
         problems.append('bundle without creation time left with no Bundle Age block (received age %r)' % (rages[:1],))
